@@ -144,3 +144,12 @@ Proof.
   - apply unencodable_c_jenc. exact Hu.
   - apply unencodable_c_kenc. exact Hu.
 Qed.
+
+(* witnesses for the non-vacuity examples of Props/C12.v *)
+Definition w_inf : val :=
+  VPtr (VSlice (TPtr (TBase BFloat32)) (Some [VPtr (VBase BFloat32 (LFloat 1069547520));
+                                              VNilPtr (TBase BFloat32);
+                                              VPtr (VBase BFloat32 (LFloat 2139095040))])).
+Definition w_nankey : val :=
+  VSlice TAny (Some [VIface TAny (Some (VStruct 0 [("M"%string,
+     VMap (TBase BFloat64) (TBase BInt) (Some [(VBase BFloat64 (LFloat 9221120237041090560), VBase BInt (LInt 1))]))]))]).
